@@ -55,12 +55,21 @@ def gen_descs(g, tier):
             out.append(dict(scn="log_cond", c=c, q=lin.gen_pdfv(g, 2, 3, ctor="Sigma")))
     for kind in ("lrbf", "lsem"):
         for (Dx, Dy, Dk, Rq) in [(1, 1, 1, 1), (1, 2, 2, 2), (2, 1, 1, 1)] + ([] if q else [(2, 2, 2, 2), (1, 1, 2, 3)]):
+            def noise_given_as(f, how):
+                """the way the noise covariance is handed over is ENUMERATED per shape (drawn at random it can miss a stratum)"""
+                for k in ("Sig0", "np_params", "twice", "fctor"):
+                    f.pop(k, None)
+                if how != "Sigma":
+                    f["fctor"] = how
+                return f
             f = c16.gen_case(g, kind, Dx, Dy, Dk, R=Rq)
-            out.append(dict(scn="feat_log_cond", f=f, q=lin.gen_pdfv(g, Rq, Dy + Dx, ctor="Sigma")))
+            out.append(dict(scn="feat_log_cond", f=noise_given_as(f, "Sigma+Lambda"), q=lin.gen_pdfv(g, Rq, Dy + Dx, ctor="Sigma")))
             f = c16.gen_case(g, kind, Dx, Dy, Dk, R=Rq)
-            out.append(dict(scn="feat_log_cond_y", f=f, ys=g.mat(g.choice([1, Rq]), Dy), callable=False))
+            out.append(dict(scn="feat_log_cond_y", f=noise_given_as(f, "Lambda"), ys=g.mat(g.choice([1, Rq]), Dy), callable=False))
             f = c16.gen_case(g, kind, Dx, Dy, Dk, R=Rq)      # the returned function, held across further requests (_other_calls)
             out.append(dict(scn="feat_log_cond_y", f=f, ys=g.mat(g.choice([1, Rq]), Dy), callable=True))
+            f = c16.gen_case(g, kind, Dx, Dy, Dk, R=Rq)
+            out.append(dict(scn="feat_log_cond", f=noise_given_as(f, "Lambda"), q=lin.gen_pdfv(g, Rq, Dy + Dx, ctor="Sigma")))
     for _ in range(0 if q else 600):
         cls = g.choice(lin.CLS)
         c = lin.gen_cond(g, cls, 1, g.randint(1, 3), g.randint(1, 3))
